@@ -154,7 +154,7 @@ pub fn run(ctx: &Ctx) -> i32 {
     let n_docs = ctx.tier.pick(8_000u64, 150_000);
     let k_layouts = ctx.tier.pick(4usize, 10);
     stats.merge(par_cases(ctx, "exact", n_docs, Duration::from_secs(ctx.tier.pick(60, 900)), |i, rng, st| {
-        let cfg = GenCfg { max_members: 5, ..GenCfg::default() };
+        let cfg = GenCfg { max_members: 5, big: true, deep_types: true, repeat_method_names: true, allow_overflow_codes: true, ..GenCfg::default() };
         let d = gen::doc(rng, &cfg);
         let r = gen::render(&d);
         for style in styles_for(k_layouts) {
@@ -171,6 +171,12 @@ pub fn run(ctx: &Ctx) -> i32 {
             };
             let mut rep = RangeReport::new();
             generic_checks(&mut rep, &laid.text, &one);
+            // overflowing transact codes (the only syntax-stage diagnostic a well-formed document can get) must sit on the number
+            if !one.stage.diagnostics.is_empty() {
+                st.inc("exact.documents_with_overflowing_transact_codes");
+                let r_syn = synx::reference(&laid.text);
+                rep.problems.extend(synx::check_c04_syntax(&laid.text, &r_syn, &one));
+            }
             for (what, res) in [("parse-stage", &one.stage), ("validated", &one.valid)] {
                 match &res.ast {
                     Some(a) => {
